@@ -291,12 +291,14 @@ def run_trace(repo, kind, events):
 def parse_model(rec):
     parts = rec.split(' ')
     f = {p.split('=', 1)[0]: p.split('=', 1)[1] for p in parts}
-    return (tuple(sorted(x for x in f['obs'].split(',') if x)), f['cl'] == '1', f['lo'] == '1',
-            f['rd'] == '1', int(f['nb']), int(f['t']))
+    obs = [x for x in f['obs'].split(',') if x]
+    # the observations of a step as a set, plus the write calls in their order
+    return (tuple(sorted(obs)), tuple(x for x in obs if x.startswith('w')), f['cl'] == '1',
+            f['lo'] == '1', f['rd'] == '1', int(f['nb']), int(f['t']))
 
 
 def key(rec):
-    return (rec['obs'], rec['cl'], rec['lo'], rec['rd'], rec['nb'], rec['t'])
+    return (rec['obs'], tuple(rec['writes']), rec['cl'], rec['lo'], rec['rd'], rec['nb'], rec['t'])
 
 
 def oracle(events, recs):
